@@ -917,8 +917,18 @@ def readable(ops: list[int]) -> list:
     return [(OPN.get(ops[i], ops[i]), *ops[i + 1:i + 6]) for i in range(0, len(ops) - 5, 6)]
 
 
-def shrink(ncalls: int, ops: list[int], budget: int = 40) -> list[int]:
-    """Drop ops while some monitor still trips."""
+def msg_class(msg: str) -> str:
+    """Class of a monitor message: its text with the numbers abstracted."""
+    import re
+    return re.sub(r"\d+", "#", msg)[:70]
+
+
+def shrink(ncalls: int, ops: list[int], budget: int = 40, cls: str | None = None) -> list[int]:
+    """Drop ops while a monitor (of the same message class, if given) still trips."""
+    def trips(cand):
+        mon = run_script(ncalls, cand).mon
+        return any(msg_class(m) == cls for m in mon) if cls else bool(mon)
+
     cur = ops
     tries = 0
     i = len(cur) // 6 - 1
@@ -926,7 +936,7 @@ def shrink(ncalls: int, ops: list[int], budget: int = 40) -> list[int]:
         cand = cur[:6 * i] + cur[6 * (i + 1):]
         tries += 1
         try:
-            if run_script(ncalls, cand).mon:
+            if trips(cand):
                 cur = cand
         except Exception:  # noqa: BLE001
             pass
@@ -1634,14 +1644,17 @@ def check(tier: str) -> int:
     # ---- decide ----
     seen = set()
     for r, msg in monitor_hits:
-        key = msg.split(" call ")[0][:60]
+        key = msg_class(msg)
         if key in seen or len(seen) >= 6:
             continue
         seen.add(key)
         ops = r.ops
         try:
-            ops = shrink(r.ncalls, r.ops[:max(r.scripted_len, 6)] if hasattr(r, "scripted_len") else r.ops)
-            shrunk_mon = run_script(r.ncalls, ops).mon
+            full = r.ops[:max(r.scripted_len, 6)] if hasattr(r, "scripted_len") else r.ops
+            if not any(msg_class(m) == key for m in run_script(r.ncalls, full).mon):
+                full = r.ops                        # the hit came from the drain part: shrink the whole history
+            ops = shrink(r.ncalls, full, cls=key)
+            shrunk_mon = [m for m in run_script(r.ncalls, ops).mon if msg_class(m) == key]
             if shrunk_mon:
                 msg = shrunk_mon[0]                 # what the shrunk history itself shows
         except Exception:  # noqa: BLE001
